@@ -6,6 +6,7 @@ import FlatccModel.Reader
 import FlatccModel.Ident
 import FlatccModel.Emitter
 import FlatccModel.PrintFlush
+import FlatccModel.SchemaNum
 /-! `fmodel`: executes the model's definitions on protocol lines (stdin → stdout, one result line per op line). -/
 open Flatcc Flatcc.Util
 
@@ -295,6 +296,54 @@ def prOp (args : List String) : String :=
       s!"err={if err then 1 else 0} total={s.total + s.buf.length} len={t.length} text={hex8 (fnvBytes t)}"
   | _ => "bad-op"
 
+open Flatcc.SchemaNum in
+def styOf (s : String) : Option STy :=
+  match s with
+  | "ubyte" => some .ubyte | "ushort" => some .ushort | "uint" => some .uint | "ulong" => some .ulong
+  | "byte" => some .byte | "short" => some .short | "int" => some .int | "long" => some .long | "bool" => some .bool
+  | "uint8" => some .ubyte | "uint16" => some .ushort | "uint32" => some .uint | "uint64" => some .ulong
+  | "int8" => some .byte | "int16" => some .short | "int32" => some .int | "int64" => some .long
+  | _ => none
+
+open Flatcc.SchemaNum in
+def litOf (t : String) : Option Lit :=
+  if t == "true" then some (.bool true) else if t == "false" then some (.bool false) else
+  let neg := t.startsWith "-"
+  let body := if neg then (t.drop 1).toString else t
+  if body.startsWith "0x" || body.startsWith "0X" then
+    let ds := (body.drop 2).toString.toList
+    if ds.all (fun c => c.isDigit || ('a' ≤ c ∧ c ≤ 'f') || ('A' ≤ c ∧ c ≤ 'F')) then some (.hex neg (ds.map Flatcc.Util.hexVal)) else none
+  else
+    let ds := body.toList
+    if !ds.isEmpty && ds.all Char.isDigit then some (.dec neg (ds.map Char.toNat)) else none
+
+def u64Of (i : Int) : Nat := (i % 18446744073709551616).toNat
+
+def schemaNumOp (op : String) (args : List String) : String :=
+  open Flatcc.SchemaNum in
+  match op, args with
+  | "lit", [ob, ty, hex] =>
+    match styOf ty, litOf (bytesToStr (hexToBytes hex)) with
+    | some st, some l =>
+      (match acceptLit (natArg ob % 2 == 1) st l with
+       | some v => s!"ok {u64Of v}"
+       | none => "reject")
+    | _, _ => "unmodelled"
+  | "enum", [_, ty, items] =>
+    match styOf ty with
+    | some st =>
+      let ms : List (Option (Option Val)) := (items.splitOn ",").map (fun t =>
+        if t == "_" then some none else
+        match litOf t with
+        | some l => (match readLit l with | .invalid => none | v => some (some v))
+        | none => none)
+      if ms.any Option.isNone then "reject" else
+      (match enumValues st none (ms.map (fun m => m.getD none)) with
+       | some vs => "ok " ++ ",".intercalate (vs.map (fun v => toString (u64Of v)))
+       | none => "reject")
+    | none => "unmodelled"
+  | _, _ => "bad-op"
+
 def step (line : String) : String :=
   match line.trimAscii.toString.splitOn " " with
   | "num" :: args => numOp args
@@ -302,6 +351,8 @@ def step (line : String) : String :=
   | "ident" :: args => identOp args
   | "emit" :: args => emitOp args
   | "pr" :: args => prOp args
+  | "lit" :: args => schemaNumOp "lit" args
+  | "enum" :: args => schemaNumOp "enum" args
   | "sort" :: args => sortOp ("sort" :: args)
   | "find" :: args => sortOp ("find" :: args)
   | "findn" :: args => sortOp ("findn" :: args)
